@@ -434,7 +434,7 @@ class Executor:
             run.unavailable.clear()
             run.unfresh.clear()
             wants_defer = False
-            self.workflow.update_file_hashes(new_inp_hashes, cause=HashUpdateCause.FAILED)
+            self._record_changed_inputs(run.step, new_inp_hashes)
         elif wants_defer:
             # Rescheduling in the `mark_completed()`` method needs the new hash to be None,
             # so the step is not marked as succeeded.
@@ -528,11 +528,29 @@ class Executor:
         unexpected_input_changes = len(new_inp_hashes) > 0
         if unexpected_input_changes:
             async with self.db:
-                self.workflow.update_file_hashes(new_inp_hashes, cause=HashUpdateCause.FAILED)
+                self._record_changed_inputs(step, new_inp_hashes)
         await self._finalize_failed_run(run)
         if unexpected_input_changes:
             await self._drain_for_unexpected_input_changes()
         return run, None
+
+    def _record_changed_inputs(self, step: Step, new_inp_hashes: Mapping[str, FileHash]) -> None:
+        """Store the new hashes of inputs that changed unexpectedly, inside a transaction.
+
+        The hashes were computed outside any transaction.
+        An input whose state moved on in the meantime
+        (e.g. a static file that its plan, running again, has just re-declared
+        and that awaits confirmation) is recorded by whoever moved it, not here.
+        """
+        recordable = {
+            rec.path
+            for rec in step.inp_paths()
+            if rec.state in (FileState.BUILT, FileState.CONFIRMED, FileState.OUTDATED)
+        }
+        self.workflow.update_file_hashes(
+            {path: fh for path, fh in new_inp_hashes.items() if path in recordable},
+            cause=HashUpdateCause.FAILED,
+        )
 
     async def _finalize_failed_run(self, run: Run) -> None:
         """Complete, record and report a run that failed before producing a new step hash."""
@@ -794,13 +812,6 @@ class Executor:
                     inp_hashes[rec.path] = run.start_inp_hashes[rec.path]
                 elif rec.state in (FileState.BUILT, FileState.CONFIRMED):
                     inp_hashes[rec.path] = rec.hash
-            # The states in which a changed hash can be recorded under the FAILED cause.
-            # For a file in another state, its own pending confirmation or rebuild records it.
-            recordable = {
-                rec.path
-                for rec in inp_records
-                if rec.state in (FileState.BUILT, FileState.CONFIRMED, FileState.OUTDATED)
-            }
             env_deps = list(run.step.env_deps())
             out_hashes = {rec.path: rec.hash for rec in run.step.out_paths()}
             shell = run.step.uses_shell()
@@ -832,12 +843,7 @@ class Executor:
             run.out_missing.extend(out_result.messages)
             run.success = False
 
-        new_inp_hashes = {
-            path: file_hash
-            for path, file_hash in inp_result.new_hashes.items()
-            if path in recordable
-        }
-        return step_hash, new_inp_hashes, out_result.new_hashes
+        return step_hash, inp_result.new_hashes, out_result.new_hashes
 
     #
     # Command execution helper
